@@ -27,6 +27,7 @@ from irispie.fords import covariances as COV
 from .common import Ctx, rat_of_float, VERIF
 
 DRIVERS = ["C15"]
+EXTRA_PROPS = ['BridgeC15']   # refinement bridge from the executable QMat model to the matrix-level theorems (audited with this check)
 LEVEL = "proof"
 MANIFEST = {
     "category": "proof",
